@@ -82,6 +82,9 @@ fn tokens() -> Vec<String> {
         long_name(),
         "/abs".into(),
         HEX.into(),
+        // a sibling of the configured directory ("root") whose name starts with its name: a
+        // containment test on path *strings* instead of components lets `../root-x` through
+        "root-x".into(),
     ]
 }
 
